@@ -95,8 +95,6 @@ def classify(decls, di, dmg):
     next_has_doc = bool(nxt) and nxt[0][1]
     if k == last and op in ("delete", "replace") and k > 0 and d[k - 1][1]:
         return "C05-trailing-comment"
-    if k == last and d[k][0] == "}" and next_has_doc and op == "replace" and a in ("if", "while"):
-        return "C05-closing-brace-stmt"
     return None
 
 
